@@ -416,7 +416,11 @@ def splice_item(item, contracts, unit_name, used, canaries):
                 lines[at:at] = blk
                 text = text[:start] + "\n".join(lines) + text[end:]
                 continue
-            hits = [i for i, l in enumerate(lines) if lo <= i <= hi_ and pat in _nows(l) and not inmark[i]]
+            if pat.startswith("^"):
+                # whole-line anchor: the line (whitespace removed) equals the pattern
+                hits = [i for i, l in enumerate(lines) if lo <= i <= hi_ and pat[1:] == _nows(l) and not inmark[i]]
+            else:
+                hits = [i for i, l in enumerate(lines) if lo <= i <= hi_ and pat in _nows(l) and not inmark[i]]
             if len(hits) != 1:
                 raise Undecided("lost-anchor", f"{q}: @{ins['where']} \"{ins['pat']}\" matches {len(hits)} lines")
             i = hits[0]
@@ -619,7 +623,7 @@ def assemble(unit, ex, extra_spec=""):
             mp = s_.get("module_prelude", "")
             if s_.get("module_prelude_file"):
                 mp += "\n" + open(os.path.join(d, s_["module_prelude_file"])).read()
-            src_mod[os.path.join(REPO, s_["file"])] = (s_["module"], mp)
+            src_mod[os.path.join(REPO, s_["file"])] = (s_["module"], mp, bool(s_.get("module_no_super")))
     cur_mod = None
     for it in ex["items"]:
         m_ = src_mod.get(it["file"])
@@ -628,7 +632,8 @@ def assemble(unit, ex, extra_spec=""):
                 parts.append("} // mod " + cur_mod + "\n")
             cur_mod = m_[0] if m_ else None
             if cur_mod:
-                parts.append(f"pub mod {cur_mod} {{\nuse super::*;\nuse vstd::prelude::*;\n{m_[1]}\n")
+                sup = "" if m_[2] else "use super::*;\n"
+                parts.append(f"pub mod {cur_mod} {{\n{sup}use vstd::prelude::*;\n{m_[1]}\n")
         parts.append(f"//@@ item {it['file']}:{it['line']} {it['selector']}\n")
         txt = splice_item(it, contracts, unit["name"], used, canaries)
         if it["kind"] == "const" and it["name"] in unit.get("exec_consts", []):
